@@ -384,7 +384,17 @@ pub fn run(a: &Args) {
 			rep.violation(&format!("C07|{}|{}", sig, kname), &format!("[call {} {}] {}", ci, kname, what), detail.clone());
 		}
 		rep.count(&format!("{}:{}", kname, if ok { "ok" } else { "refused" }));
-		rep.distinct(&(kname.clone(), ok, via_rpc, after.len() > before.len()));
+		// behaviour class: call kind, outcome, transport, whether records were added, the slate's state and
+		// number of participants/commitments (hostile slates), which kind of key a coinbase request named
+		let sl = &detail["slate"];
+		let sub = (
+			sl["sta"].as_str().unwrap_or("").to_string(),
+			sl["sigs"].as_array().map(|a| std::cmp::min(a.len(), 3)),
+			sl["coms"].as_array().map(|a| std::cmp::min(a.len(), 3)),
+			detail["dest"].as_str().unwrap_or("").to_string(),
+			detail["key_id"].as_str().map(|k| k.len()),
+		);
+		rep.distinct(&(kname.clone(), ok, via_rpc, after.len() > before.len(), sub));
 		if rep.samples.len() < 5 && viols.is_empty() && ci % 37 == 5 {
 			rep.sample(json!({"call": kname, "via_rpc": via_rpc, "outcome": if ok {"ok"} else {"refused"}, "records_before": before.len(), "records_after": after.len()}));
 		}
